@@ -5,6 +5,6 @@ CONSTANTS
   MaxTokens = 4
   MaxDepth = 2
 SPECIFICATION MCSpec
-INVARIANTS Canonical RoundTripMC DenoteIsSource EmitCases
+INVARIANTS Canonical RoundTripMC DenoteIsSource EmitCases EmitScale ScaleRoundTrip
 PROPERTY Termination
 CHECK_DEADLOCK FALSE
